@@ -173,6 +173,13 @@ class State:
             return True
         if z3.is_false(cond):
             return False
+        # a condition already decided by the (quantifier-free part of the) path condition does not fork
+        if self.solver.check(z3.Not(cond)) == z3.unsat:
+            self.pc.append(cond)  # implied, but kept as an explicit hypothesis (helps the provers)
+            return True
+        if self.solver.check(cond) == z3.unsat:
+            self.pc.append(z3.Not(cond))
+            return False
         c = self.dec.choose(2)
         taken = c == 0
         f = cond if taken else z3.Not(cond)
